@@ -382,6 +382,11 @@ def graph_walkers(repo, res, rule="GW"):
                 ok = it_ok and cond_ok and pg_ok and succ_ok
                 why = f"loop over {A.show(it)[:60]} ok={it_ok}; pruned only by visited={cond_ok and pg_ok}; recurses into {A.show(a0)[:70]}"
         res.check(ok, rule, f"{rule}:{fq}", why, fn.loc())
+        # the visited set only grows: a walk that forgets a vertex when it returns from it explores every simple path (exponential in
+        # the number of alternatives: the compiler does not come back)
+        vis_all = [prm["name"] for prm in fn.params if prm.get("name") and "mut" in (prm.get("ty") or "") and re.search(r"RoaringBitmap|Set", prm.get("ty") or "")]
+        shr = [c for c in A.walk(fn.body) if c["k"] == "MethodCall" and c["method"] in ("remove", "clear", "retain", "pop", "truncate", "drain", "take") and c["recv"]["k"] == "Path" and c["recv"]["path"] in vis_all]
+        res.check(not shr, rule, f"{rule}:{fq}:visited-only-grows", f"visited sets {vis_all} are only added to" if not shr else f"`{shr[0]['recv']['path']}.{shr[0]['method']}(..)` at line {shr[0]['l']}: a vertex is forgotten again, so it is re-explored along every path that reaches it", fn.loc())
     # the per-state checks happen before the recursion, unconditionally (every visited state is inspected)
     fn = repo.fn("dfa::DFA::do_check_ambiguity_best_effort")
     if fn is not None:
